@@ -522,11 +522,11 @@ def run_c25(tier):
     devs = tla_strset(REPL_DEVS)
     # (NI, TfLong, MaxRecs, MaxSets, MaxTGs, MaxWrites, mode, replay count, simulate count)
     if quick:
-        plan = [(2, True, 1, 3, 3, 3, "mc", 600, 0), (2, False, 1, 3, 3, 3, "mc", 150, 0),
-                (2, True, 2, 3, 3, 6, "sim", None, 150), (2, False, 2, 3, 3, 6, "sim", None, 60)]
+        plan = [(2, True, 1, 3, 3, 3, "mc", 480, 0), (2, False, 1, 3, 3, 3, "mc", 120, 0),
+                (2, True, 2, 3, 3, 6, "sim", None, 110), (2, False, 2, 3, 3, 6, "sim", None, 40)]
     else:
-        plan = [(2, True, 1, 3, 3, 3, "mc", None, 0), (2, False, 1, 3, 3, 3, "mc", None, 0), (2, True, 1, 3, 3, 4, "mc", 20000, 0),
-                (1, True, 2, 3, 3, 3, "mc", 8000, 0), (2, True, 2, 3, 3, 7, "sim", None, 6000), (2, False, 2, 3, 3, 7, "sim", None, 2000)]
+        plan = [(2, True, 1, 3, 3, 3, "mc", None, 0), (2, False, 1, 3, 3, 3, "mc", None, 0), (2, True, 1, 3, 3, 4, "mc", 7000, 0),
+                (1, True, 2, 3, 3, 3, "mc", 4000, 0), (2, True, 2, 3, 3, 7, "sim", None, 3000), (2, False, 2, 3, 3, 7, "sim", None, 1000)]
     behs, jobs, info = [], [], []
     for ni, tflong, maxrecs, maxsets, maxtgs, maxwrites, mode, nreplay, nsim in plan:
         consts = dict(NI=ni, TfLong="TRUE" if tflong else "FALSE", MaxRecs=maxrecs, MaxSets=maxsets, MaxTGs=maxtgs,
